@@ -103,7 +103,7 @@ def exceptions_of(n, fi, summary, res):
         todo.extend(ast.iter_child_nodes(x))
         if isinstance(x, ast.Subscript) and isinstance(x.ctx, ast.Load) and not isinstance(x.slice, ast.Slice):
             # data-dependent lookup failures: only when the key or the container derives from the hostile text
-            if any(isinstance(y, ast.Name) and y.id in tainted for y in ast.walk(x)) and not _membership_guarded(x) and not _fixed_shape_index(x, fi):
+            if any(isinstance(y, ast.Name) and y.id in tainted for y in ast.walk(x)) and not _membership_guarded(x) and not _fixed_shape_index(x, fi) and not _match_start_index(x, fi):
                 out.add("KeyError")
                 out.add("IndexError")
         if isinstance(x, ast.BinOp) and isinstance(x.op, (ast.Div, ast.FloorDiv, ast.Mod)) and not _nonzero(x.right):
@@ -175,6 +175,66 @@ def _fixed_shape_index(x, fi):
                 if isinstance(c, ast.Call) and isinstance(c.func, ast.Attribute) and c.func.attr in ("findall", "split", "rsplit", "splitlines", "groups", "finditer"):
                     return False
     return True
+
+
+def _match_start_index(x, fi):
+    """s[i] where i = m.start() for a match m = <pattern>.search(s) / re.search(<pattern>, s) of a constant pattern that
+    cannot match the empty string: the start of a non-empty match lies inside the subject"""
+    import re as _re
+    try:
+        import re._parser as _sre
+    except ImportError:          # pragma: no cover
+        import sre_parse as _sre
+    if not (isinstance(x.slice, ast.Name) and isinstance(x.value, ast.Name)):
+        return False
+    idx, subj = x.slice.id, x.value.id
+    fn = fi.node
+    mname = None
+    for st in ast.walk(fn):
+        if isinstance(st, ast.Assign) and len(st.targets) == 1 and isinstance(st.targets[0], ast.Name) and st.targets[0].id == idx:
+            v = st.value
+            if isinstance(v, ast.Call) and isinstance(v.func, ast.Attribute) and v.func.attr == "start" and not v.args and isinstance(v.func.value, ast.Name):
+                mname = v.func.value.id
+            else:
+                return False
+    if mname is None:
+        return False
+    for st in ast.walk(fn):
+        if isinstance(st, ast.Assign) and len(st.targets) == 1 and isinstance(st.targets[0], ast.Name) and st.targets[0].id == mname:
+            c = st.value
+            if not (isinstance(c, ast.Call) and isinstance(c.func, ast.Attribute) and c.func.attr in ("search", "match")):
+                return False
+            d = dotted(c.func) or ""
+            pat_expr, subject = (c.args[0], c.args[1]) if d.startswith("re.") and len(c.args) >= 2 else (c.func.value, c.args[0] if c.args else None)
+            if not (isinstance(subject, ast.Name) and subject.id == subj):
+                return False
+            text = _const_pattern(pat_expr, fi)
+            if text is None:
+                return False
+            try:
+                return _sre.parse(text).getwidth()[0] >= 1
+            except Exception:      # noqa: BLE001
+                return False
+    return False
+
+
+def _const_pattern(e, fi, depth=0):
+    """regex source of a literal, of `re.compile(<literal>)`, or of a class / module constant bound to one"""
+    if isinstance(e, ast.Constant) and isinstance(e.value, str):
+        return e.value
+    if isinstance(e, ast.Call) and (dotted(e.func) or "") == "re.compile" and e.args:
+        return _const_pattern(e.args[0], fi, depth + 1)
+    if depth > 3:
+        return None
+    name = e.attr if isinstance(e, ast.Attribute) and isinstance(e.value, ast.Name) and e.value.id in ("self", "cls") else (e.id if isinstance(e, ast.Name) else None)
+    if name is None:
+        return None
+    if fi.cls is not None and name in getattr(fi.cls, "assigns", {}):
+        return _const_pattern(fi.cls.assigns[name], fi, depth + 1)
+    for st in fi.module.tree.body:
+        if isinstance(st, ast.Assign) and any(isinstance(t, ast.Name) and t.id == name for t in st.targets):
+            return _const_pattern(st.value, fi, depth + 1)
+    return None
 
 
 def _membership_guarded(x):
